@@ -77,8 +77,8 @@ const c15Rule = "parsers over the default, stateful and mapped (Unquote/Upper) l
 	"ParseFromLexer(Upgrade(definition.Lex(...), elided types)) return deeply equal ASTs and identical error texts; Parser.Lex equals the " +
 	"tokens obtained by draining the parser's definition, and Lex/LexString/LexBytes of a definition yield identical streams, also when " +
 	"several lexers of the definition (ported example lexers, the parser's own, generated multi-state rule sets on different inputs) are alive and drained in turns, out of step; with " +
-	"Trace(w) the result is identical; with AllowTrailing the caller's PeekingLexer ends at the first token the " +
-	"reference parser did not consume (generated grammars); non-trivial = mapped lexer, or an error result, or trailing input; " +
+	"Trace(w) the result is identical; ParseFromLexer as the first call on a freshly built parser agrees too; with AllowTrailing the caller's PeekingLexer ends at the first token the " +
+	"reference parser did not consume, by Peek and by raw cursor (generated grammars); non-trivial = mapped lexer, or an error result, or trailing input; " +
 	"distinct by SHA-256 of the case"
 
 func errText(err error) string {
